@@ -9,12 +9,18 @@ assert sh('git -C /repo diff --quiet').returncode == 0, '/repo is dirty'
 shutil.rmtree('/tmp/evidence.keep', ignore_errors=True)
 shutil.copytree(f'{V}/evidence', '/tmp/evidence.keep')
 rows = []
+only = sys.argv[1:]          # optional name prefixes
 try:
     for name in sorted(os.listdir(f'{V}/seeded')):
         d = f'{V}/seeded/{name}'
         meta = json.load(open(f'{d}/meta.json'))
         checks = [c for c in meta.get('caught_by', []) if c.startswith('C') and len(c) == 3]
-        assert sh(f'git -C /repo apply {d}/patch.diff').returncode == 0, name
+        if only and not any(name.startswith(o) for o in only):
+            continue
+        if sh(f'git -C /repo apply {d}/patch.diff').returncode != 0:
+            rows.append((name, '-', 'PATCH-DOES-NOT-APPLY', '-'))
+            print(rows[-1], flush=True)
+            continue
         try:
             for c in checks:
                 r = sh(f'./check {c}', cwd=V)
